@@ -324,7 +324,8 @@ impl TlsDemux {
                 Some(String::from(auth_creds)),
             )
         } else {
-            return Err(format!("Unexpected SNI {}", sni));
+            // the first label may be mistyped credentials
+            return Err(format!("Unexpected SNI {}", net_utils::scrub_sni(sni)));
         };
 
         Ok(ConnectionMeta {
